@@ -2,6 +2,7 @@
 package fam
 
 import (
+	"encoding/json"
 	"encoding/pem"
 	"errors"
 	"fmt"
@@ -20,6 +21,19 @@ type ErrObs struct {
 	Names   []string `json:"names"`
 	Wrapped bool     `json:"wrapped"` // arrived inside ErrVerification
 	Reason  string   `json:"reason"`
+}
+
+// MarshalJSON never emits null (TLC's JSON reader refuses it): an absent name list is [].
+func (e ErrObs) MarshalJSON() ([]byte, error) {
+	type plain ErrObs
+	p := plain(e)
+	if p.Names == nil {
+		p.Names = []string{}
+	}
+	if p.Cls == "" {
+		p.Cls = "none"
+	}
+	return json.Marshal(p)
 }
 
 func projectErr(err error) ErrObs {
